@@ -10,8 +10,9 @@ the simulated server calls `next` `reads` times (None: to the end) and `close()`
     {'k': 'b', 'meth': 'get'|'head', 'tb': 0|1, 'stream': 0|1, 'tools': [...], 'cl': 0|1, 'status': None|n|str,
      'body': {'shape': SHAPE, 'items': 'bbsx', 'end': 0|1, 'close': 'absent'|'ok'|'raise'|'arg'},
      'tamper': [STATUS_T, HDR_T], 'reads': None|m, 'closes': n,
-     'xk': 'ex'|'ir'|'hr'|'he'|'nf' (class of what the failing sites raise: an ordinary Exception, InternalRedirect,
-           HTTPRedirect, HTTPError, NotFound), 'relx': the same for a failing on_end_request hook}
+     'xk': 'ex'|'ir'|'hr'|'he'|'nf'|<builtin class name> (class of what the failing sites raise: the private
+           ProbeError, InternalRedirect, HTTPRedirect, HTTPError, NotFound, or ValueError / TypeError / KeyError / ... with the
+           marker message as args[0]), 'relx': the same for a failing on_end_request hook}
     SHAPE  = bytes | bytes0 | str | str0 | none | nonit | list | tuple | gen | iter | iterable | file
     items  = what successive `__next__` / `read()` calls produce: b bytes chunk, e b'', s a str, i an int, x raise
     end    = 1: at exhaustion an exception instead of StopIteration (iter/iterable), `read()` raises (file)
@@ -78,7 +79,10 @@ class BRun(object):
 
     def exc(self, site):
         """What a failing site of the body iterator raises: the plan's exception kind (`xk`)."""
-        if self.plan.get('xk', 'ex') == 'ex' or self.prebuilt is None:
+        kind = self.plan.get('xk', 'ex')
+        if kind in pc.EX_CLASSES:
+            return pc.EX_CLASSES[kind]('%s-%s' % (MARK, site))
+        if kind == 'ex' or self.prebuilt is None:
             return ProbeError('%s-%s' % (MARK, site))
         return self.prebuilt
 
@@ -268,6 +272,10 @@ EP_CALLABLES = {
 # exception kinds of the failing sites: an ordinary Exception, and CherryPy's own control-flow classes (what
 # Request.throws / the except clauses of respond() single out); KeyboardInterrupt / SystemExit are excluded by the statement
 XKINDS = ['ex', 'ir', 'hr', 'he', 'nf']
+# ... and, as further spellings of "an ordinary Exception", classes of the builtin hierarchy that CherryPy itself catches
+# or uses internally (valid_status / header parsing: ValueError, dict lookups: KeyError, ...), each built with the marker
+# message as args[0]: with tracebacks off none of it may reach the client, whatever the class
+ORDINARY = [k for k in sorted(pc.EX_CLASSES) if k != 'ProbeError']
 
 
 def build_exc(kind):
@@ -289,7 +297,7 @@ def _released_hook():
         kind = run.plan.get('relx') if run.plan['k'] == 'b' else None
         if kind and len(run.reqs) and cherrypy.serving.request is run.reqs[0]:
             # on_end_request of the page's request fails too (release_serving logs and drops it)
-            raise (build_exc(kind) or ProbeError('%s-onendrequest' % MARK))
+            raise (build_exc(kind) or pc.EX_CLASSES.get(kind, ProbeError)('%s-onendrequest' % MARK))
 
 
 def _cond(cond, run, qs):
@@ -536,7 +544,9 @@ def tok(s):
 def model_comparable(plan):
     """Plans the Lean model covers (the rest is judged by the oracle only)."""
     if plan['k'] == 'b':
-        if plan.get('xk', 'ex') != 'ex' and not ((plan['stream'] or plan['cl']) and plan['status'] is None):
+        if plan.get('xk') == 'StopIteration' and plan['body']['shape'] != 'gen':
+            return False       # from __next__ / read() this is the end of the iteration, not a failure
+        if plan.get('xk', 'ex') in XKINDS[1:] and not ((plan['stream'] or plan['cl']) and plan['status'] is None):
             # a control-flow exception raised while finalize consumes the body is handled by the request layer
             # (redirect, 404 page, internal redirect): oracle only.  Raised later (streamed / uncollapsed body:
             # next, close, finally) its class must make no difference: compared with the kind-free model
@@ -705,12 +715,23 @@ def grid_b_plans(quick):
             plans.append(b_plan(sh, items, end, close, stream=1, status=204, xk=xk))
             for tools in (('encode',), ('gzip',)):
                 plans.append(b_plan(sh, items, end, close, stream=1, tools=tools, xk=xk))
-    for relx in XKINDS:
+    # ... and the class of an *ordinary* failure: collapse / flush time (inside finalize), stream time, close()
+    for xk in ORDINARY:
+        for sh, items, end, close in sites:
+            if xk == 'StopIteration' and sh != 'gen':
+                continue
+            for stream, cl, status in ((0, 0, None), (0, 0, 204), (1, 0, None), (1, 0, 304), (0, 1, None)):
+                for tb in (0, 1):
+                    plans.append(b_plan(sh, items, end, close, stream=stream, cl=cl, status=status, tb=tb, xk=xk))
+            plans.append(b_plan(sh, items, end, close, stream=1, tb=0, reads=1, closes=2, xk=xk))
+            for tools in (('gzip',), ('etags',), ('encode',)):
+                plans.append(b_plan(sh, items, end, close, stream=0, tools=tools, tb=0, xk=xk))
+    for relx in XKINDS + ORDINARY:
         for sh, items, close in (('bytes', '', 'absent'), ('gen', 'bb', 'raise'), ('iter', 'bx', 'raise'), ('str', '', 'absent')):
             for stream in (0, 1):
                 for reads, closes in ((None, 1), (1, 2), (0, 1)):
                     plans.append(b_plan(sh, items, 0, close, stream=stream, reads=reads, closes=closes, relx=relx,
-                                        xk=relx if relx != 'ex' else 'ex'))
+                                        xk=relx if (relx != 'ex' and not (relx == 'StopIteration' and sh != 'gen')) else 'ex'))
     # failures answered through an error_page callable of every return type
     for ep in sorted(EP_CALLABLES):
         for sh, items, st in (('str', '', None), ('bytes', '', 99), ('gen', 'bx', None), ('list', 'bs', None)):
@@ -746,8 +767,11 @@ def gen_b_plan(rng):
                   rng.choice(['none', 'bytes', 'strkey', 'strval', 'unival', 'strpair', 'triple', 'nonpair', 'intval', 'nolist']))
     tools = rng.choices([(), ('encode',), ('gzip',), ('encode', 'gzip'), ('etags',)], weights=[60, 15, 10, 8, 7])[0]
     ep = rng.choice(sorted(EP_CALLABLES)) if rng.random() < 0.08 else None
-    xk = rng.choice(XKINDS[1:]) if rng.random() < 0.3 else 'ex'
-    relx = rng.choice(XKINDS) if rng.random() < 0.1 else None
+    r = rng.random()
+    xk = rng.choice(XKINDS[1:]) if r < 0.25 else (rng.choice(ORDINARY) if r < 0.6 else 'ex')
+    if xk == 'StopIteration' and sh != 'gen':
+        xk = 'ValueError'
+    relx = rng.choice(XKINDS + ORDINARY) if rng.random() < 0.1 else None
     return b_plan(sh, items, rng.choice([0, 0, 1]) if sh in ('iter', 'iterable', 'file') else 0, close, ep=ep, xk=xk, relx=relx,
                   meth=rng.choices(['get', 'head'], weights=[85, 15])[0], tb=rng.choice([0, 1]),
                   stream=rng.choice([0, 1, 1]), tools=tools, cl=1 if rng.random() < 0.15 else 0,
